@@ -211,7 +211,7 @@ func init() {
 	vfRegister(&vfeng.Check{
 		ID:    "C18",
 		Level: "model_checking",
-		Rule:  "exhaustive product route (extracted from main()) x session kind x method x request-controlled field (every form field any handler reads, path suffix, raw query, headers, cookies) x canary payload on the real handlers; every text/html response is parsed with golang.org/x/net/html and must contain no canary-named element or attribute; class = (route, html/non-html status, reflected inert/no)",
+		Rule:  "exhaustive product route (extracted from main()) x session kind x method x request-controlled field (every form field any handler reads, path suffix, raw query, headers, cookies, absolute-form authority, Host, and the session's own user name) x canary payload on the real handlers; every text/html response is parsed with golang.org/x/net/html and must contain no canary-named element or attribute; class = (route, html/non-html status, reflected inert/no)",
 		Assumptions: []string{"an HTML5 parser (x/net/html) stands for the browser's parser", "stored fields are limited to what the real input filters admit (checked by attempting to store payloads through the real admin handlers)"},
 		Bounds: func(tier string) map[string]interface{} {
 			return map[string]interface{}{"payloads": len(c18Payloads()), "fields": len(c18Fields()) + 11}
@@ -258,6 +258,37 @@ func init() {
 					}
 				}
 			}
+			// sessions whose USER NAME is the payload (a backend that knows such a name):
+			// every route, GET and POST, with a profile that has tokens so that the token pages render
+			for k, pl := range payloads {
+				name := strings.ToLower("zz" + pl.Make(6000+k))
+				for ri, rt := range w.routes {
+					i++
+					if !c.Mine(i) {
+						continue
+					}
+					_ = ri
+					if w.vfLoadProfile(name) == nil || len(w.vfLoadProfile(name).TOTPAuthData) == 0 {
+						w.vfGiveTOTP(name, 1)
+						w.vfGiveU2F(name, 1)
+					}
+					ck := w.vfCookie(name, AuthTypePassword|AuthTypeTOTP|AuthTypeU2F)
+					for _, method := range []string{"GET", "POST"} {
+						resp := w.Do(vfReq{Method: method, Path: rt.Pattern, Cookies: []*http.Cookie{ck}, Header: map[string]string{"Accept": "text/html,application/xhtml+xml", "User-Agent": "Mozilla/5.0 Chrome/100.0"}, Form: url.Values{"x": {"y"}}}.Build())
+						c.Eval(1)
+						p := c18Point{Route: rt.Name, Path: rt.Pattern, Method: method, Session: "user-named-payload", Field: "@username", Payload: pl.Name, N: 6000 + k}
+						if !c18IsHTML(resp) {
+							c.Class(fmt.Sprintf("%s|username|non-html-%d", rt.Name, resp.Code), p)
+							continue
+						}
+						if hit := c18Scan(resp.Body); hit != "" {
+							c.Violate(fmt.Sprintf("C18|markup-injection|%s|field=@username", rt.Name), fmt.Sprintf("%s %s in a session of user %q: response (status %d) contains %s", method, rt.Pattern, name, resp.Code, hit), p)
+						} else {
+							c.Class(fmt.Sprintf("%s|username|html-%d", rt.Name, resp.Code), p)
+						}
+					}
+				}
+			}
 			if c.Shard == 0 {
 				// stored fields: try to plant payload-named users/tokens through the real handlers
 				adm := sess["admin"]
@@ -286,6 +317,25 @@ func init() {
 			}
 			w := c18World()
 			defer w.Close()
+			if p.Field == "@username" {
+				var pl string
+				for _, x := range c18Payloads() {
+					if x.Name == p.Payload {
+						pl = x.Make(p.N)
+					}
+				}
+				name := strings.ToLower("zz" + pl)
+				w.vfGiveTOTP(name, 1)
+				w.vfGiveU2F(name, 1)
+				ck := w.vfCookie(name, AuthTypePassword|AuthTypeTOTP|AuthTypeU2F)
+				resp := w.Do(vfReq{Method: p.Method, Path: p.Path, Cookies: []*http.Cookie{ck}, Header: map[string]string{"Accept": "text/html,application/xhtml+xml", "User-Agent": "Mozilla/5.0 Chrome/100.0"}, Form: url.Values{"x": {"y"}}}.Build())
+				if c18IsHTML(resp) {
+					if hit := c18Scan(resp.Body); hit != "" {
+						return true, fmt.Sprintf("C18|markup-injection|%s|field=@username :: %s", p.Route, hit)
+					}
+				}
+				return false, fmt.Sprintf("status %d, no canary markup", resp.Code)
+			}
 			if p.Route == "stored" {
 				return false, "stored-field cases are re-run by the quick check"
 			}
